@@ -41,6 +41,9 @@ func (v *FnVC) Context() string {
 		b.WriteString(d)
 		b.WriteString("\n")
 	}
+	for _, a := range v.S.Axioms() {
+		b.WriteString("(assert " + a + ")\n")
+	}
 	for _, a := range v.asserts {
 		b.WriteString("(assert ")
 		b.WriteString(a)
